@@ -6,55 +6,53 @@ namespace ShVerif.C07
 open ShVerif ShVerif.L2
 set_option linter.unusedSimpArgs false
 
-theorem R.r_ne_of_front {s a b f} (h : R s a) (hf : s.front = b :: f) : a.r ≠ runeEOF := by
+theorem R.r_ne_of_front {s a b f} (h : R s a) (hf : s.front = b :: f) (hh : a.halted = false) :
+    a.r ≠ runeEOF := by
   obtain ⟨hal, _⟩ := h.head hf
   intro hr
-  have := (h.eofR hal (by rw [← h.f_r]; exact hr)).2
+  have := (h.eofR hal (by rw [← h.f_r]; exact hr) hh).2.1
   simp [hf] at this
 
 theorem runeAscii_refines {s a} (b : Byte) (f : List Byte) (bq : Nat) (h : R s a)
     (hb : a.behind = none) (hf : s.front = b :: f) (hb7 : b.toNat < 0x80)
-    (hok : (LSt.runeAscii b bq a).st.ok = true) :
+    (hh : a.halted = false) :
     ∃ st, St.runeAscii b bq s = .ok st ∧ StepR st (LSt.runeAscii b bq a) := by
-  have hr := h.r_ne_of_front hf
+  have hr := h.r_ne_of_front hf hh
   obtain ⟨hRa, hcur, hala⟩ := advance_refines h hb hf
   have hra : a.consume.r ≠ runeEOF := by simpa using hr
   have hba : a.consume.behind = none := by simpa using hb
-  unfold LSt.runeAscii at hok ⊢
+  have hha : a.consume.halted = false := by simpa using hh
+  unfold LSt.runeAscii
   unfold St.runeAscii
-  simp only at hok ⊢
-  generalize a.consume = a' at hRa hala hra hba hok ⊢
+  simp only
+  generalize a.consume = a' at hRa hala hra hba hha ⊢
   generalize s.advance = s' at hRa hcur ⊢
   by_cases h0 : b = 0
   · simp only [h0, beq_self_eq_true, if_true]
     exact ⟨_, rfl, rfl, hRa.setCol 1⟩
   · have e0 : (b == 0) = false := by simp [h0]
-    simp only [e0, Bool.false_eq_true, if_false] at hok ⊢
+    simp only [e0, Bool.false_eq_true, if_false]
     by_cases h13 : b = 13
-    · simp only [h13, beq_self_eq_true, if_true] at hok ⊢
-      obtain ⟨s1, hp1, hR1⟩ := peek_refines hRa
-      have ea1 := peek_snd a'
-      rcases hpk : a'.peek with ⟨pk, a1⟩
-      rw [hpk] at hp1 hR1 ea1
-      simp only [hpk] at hok ⊢
+    · simp only [h13, beq_self_eq_true, if_true]
+      obtain ⟨s1, hp1, hR1⟩ := peek_step hRa hha
+      rw [peek_eq]
       simp only [hp1, bind_ok]
-      simp only at ea1 hR1
-      by_cases h10 : pk = 10
+      by_cases h10 : pk1 a'.rest = 10
       · simp only [h10, beq_self_eq_true, if_true]
         exact ⟨_, rfl, rfl, hR1.setCol 1⟩
-      · have e3 : (pk == 10) = false := by simp [h10]
-        simp only [e3, Bool.false_eq_true, if_false] at hok ⊢
-        have hal1 : a1.err = none := by rw [ea1]; simpa using hala
-        have hr1 : a1.r ≠ runeEOF := by rw [ea1]; simpa using hra
+      · have e3 : (pk1 a'.rest == 10) = false := by simp [h10]
+        simp only [e3, Bool.false_eq_true, if_false]
+        have hal1 : a'.forget.peekEff0.err = none := by simpa using hala
+        have hr1 : a'.forget.peekEff0.r ≠ runeEOF := by simpa using hra
         have := runeTail_refines 13 bq hR1 hal1 (hR1.cursor_of_ne hr1) (by decide)
         exact ⟨_, rfl, by simpa [StepR] using this⟩
     · have e13 : (b == 13) = false := by simp [h13]
-      simp only [e13, Bool.false_eq_true, if_false] at hok ⊢
+      simp only [e13, Bool.false_eq_true, if_false]
       by_cases h92 : b = 92
-      · simp only [h92, beq_self_eq_true, if_true] at hok ⊢
-        exact runeBackslash_refines 92 bq hRa hala hra (by decide) hok
+      · simp only [h92, beq_self_eq_true, if_true]
+        exact runeBackslash_refines 92 bq hRa hala hra (by decide) hha
       · have e92 : (b == 92) = false := by simp [h92]
-        simp only [e92, Bool.false_eq_true, if_false] at hok ⊢
+        simp only [e92, Bool.false_eq_true, if_false]
         have := runeTail_refines b bq hRa hala hcur hb7
         exact ⟨_, rfl, by simpa [StepR] using this⟩
 
@@ -66,22 +64,21 @@ theorem R.setR {s a} (h : R s a) (hal : a.err = none) (hcur : s.bsp = s.back.len
   constructor <;> simp_all <;> (try assumption) <;> (try omega)
 
 /-- the spec-side effect of the `decodeRune:` loop -/
-def decodeSpec (a : LSt) : LSt :=
-  let a1 : LSt := { a with r := (decodeRune a.rest).1 }
-  if needMore a.rest then a1.fillE else a1
+def decodeSpec (a : LSt) : LSt := { a with r := (decodeRune a.rest).1 }
 
 theorem decodeSpec_setR (a : LSt) (x : Nat) : decodeSpec { a with r := x } = decodeSpec a := rfl
 
 theorem decodeLoop_refines (fuel : Nat) : ∀ {s a}, R s a → a.err = none → a.behind = none →
+    a.halted = false →
     s.front ≠ [] → a.r ≠ runeEOF → 5 ≤ s.front.length + fuel → 1 ≤ fuel →
     ∃ s', St.decodeLoop fuel s = .ok ((decodeRune a.rest).2, s') ∧ R s' (decodeSpec a) ∧
       (decodeRune a.rest).2 ≤ s'.front.length := by
   induction fuel with
   | zero =>
-    intro s a h hal hb hne hr hlen h1
+    intro s a h hal hb hh hne hr hlen h1
     omega
   | succ fuel ih =>
-    intro s a h hal hb hne hr hlen _
+    intro s a h hal hb hh hne hr hlen _
     unfold St.decodeLoop
     have hcur := h.cursor_of_ne hr
     have hle : ¬ s.bsp > s.blen := by rw [hcur, h.blen_eq]; omega
@@ -97,21 +94,21 @@ theorem decodeLoop_refines (fuel : Nat) : ∀ {s a}, R s a → a.err = none → 
       · obtain ⟨s', h1, h2, h3, _⟩ := fill_eof hR1 hb (Or.inl hp)
         have hrf : a.rest = s.front := by rw [hrest, hp]; simp
         refine ⟨s', by simp [h1, hrf], ?_, ?_⟩
-        · unfold decodeSpec
-          rw [hrf, hnm]
-          simpa [hrf] using h2
+        · have heq : (decodeRune a.rest).1 = (decodeRune s.front).1 := by rw [hrf]
+          simp only [decodeSpec, heq]
+          exact h2
         · rw [hrf]
           have : s'.front = s.front := h3
           rw [this]
           exact (decode_width _ hne).2
       · obtain ⟨n, s', h1, hn, h2, chunk, hcne, hfr, happ⟩ :=
-          fill_data hR1 hb hal hp (by simp [bufSize]; omega)
+          fill_data hR1 hb hal hh hp (by simp [bufSize]; omega)
         have hfr' : s'.front = s.front ++ chunk := hfr
         have hlen' : s.front.length + 1 ≤ s'.front.length := by
           rw [hfr']; cases chunk with
           | nil => exact absurd rfl hcne
           | cons c t => simp
-        obtain ⟨s'', h3, h4, h5⟩ := ih h2 hal hb (by intro hh; rw [hh] at hlen'; simp at hlen')
+        obtain ⟨s'', h3, h4, h5⟩ := ih h2 hal hb hh (by intro hx; rw [hx] at hlen'; simp at hlen')
           (by simpa using hdl) (by omega) (by omega)
         refine ⟨s'', ?_, ?_, h5⟩
         · simp only [h1, bind_ok]
@@ -126,7 +123,7 @@ theorem decodeLoop_refines (fuel : Nat) : ∀ {s a}, R s a → a.err = none → 
       rw [← hrest] at hd1 hd2
       refine ⟨_, by rw [hd1]; rfl, ?_, ?_⟩
       · unfold decodeSpec
-        rw [hd2, hd1]
+        rw [hd1]
         exact h.setR hal hcur _ hdl
       · rw [hd1]; exact (decode_width _ hne).2
 
